@@ -3,6 +3,7 @@
 package c13
 
 import (
+	"os"
 	"fmt"
 	"strings"
 
@@ -31,6 +32,7 @@ var handValid = []string{
 
 // handInvalid are byte strings that are not JSON texts.
 var handInvalid = []string{
+	"\ufeff{}", "\ufeff[]", "\ufeff{\"a\":1}", "\ufeff[1,2]", " \ufeff{}", "\ufeff\ufeff{}", "\ufeff", "\ufeff \n{}", "{}\ufeff", "\ufeff1", "\ufeff\"s\"", "\ufefftrue",
 	``, ` `, "\n", `,`, `:`, `]`, `}`, `[`, `{`, `[[`, `{"a"`, `{"a":`, `{"a":1`, `{"a":1,`, `[1`, `[1,`, `"`, `"a`, `"a\`, `"a\"`, `"\`,
 	`[1,]`, `[,1]`, `[,]`, `[1,,2]`, `{"a":1,}`, `{,}`, `{,"a":1}`, `{"a":1,,"b":2}`, `[1 2]`, `{"a":1 "b":2}`, `{"a" 1}`, `{"a"}`, `{"a":}`, `{1:2}`, `{a:1}`, `{null:1}`, `{[]:1}`, `{"a":1]`, `[1}`, `[1:2]`, `{"a"=1}`, `{"a":1;"b":2}`,
 	`tru`, `nul`, `fals`, `True`, `TRUE`, `False`, `NULL`, `Null`, `nil`, `None`, `undefined`, `NaN`, `Infinity`, `-Infinity`, `-NaN`, `truee`, `true_`, `nulll`, `null0`, `true1`, `1true`, `truefalse`, `a`, `abc`, `_`, `$`,
@@ -166,6 +168,63 @@ func runC13(cx *lib.Ctx) {
 			res.Case(src[:k], o.check([]byte(src[:k]), docOpts{origin: "deep-unclosed"}))
 			res.Count("stream:deep-unclosed")
 		}
+	}
+
+	// wide documents: thousands of sibling containers / members at one level (no deep nesting)
+	n = cx.Scale(8, 60)
+	for i := 0; i < n; i++ {
+		r := root.Fork()
+		k := 10001 + r.Intn(9000)
+		if i%4 == 3 {
+			k = 4000 + r.Intn(3000)
+		}
+		var sb strings.Builder
+		elem := []string{"[]", "{}", "[1,[true]]", "[[]]", "{\"a\":[]}", "1", "\"s\"", "[null]"}
+		switch i % 4 {
+		case 0:
+			e := r.Pick(elem[:5])
+			sb.WriteString("[")
+			for j := 0; j < k; j++ {
+				if j > 0 {
+					sb.WriteString(",")
+				}
+				sb.WriteString(e)
+			}
+			sb.WriteString("]")
+		case 1:
+			sb.WriteString("{")
+			for j := 0; j < k; j++ {
+				if j > 0 {
+					sb.WriteString(",")
+				}
+				fmt.Fprintf(&sb, "\"k%d\":%s", j, r.Pick(elem))
+			}
+			sb.WriteString("}")
+		case 2:
+			sb.WriteString("[")
+			for j := 0; j < k; j++ {
+				if j > 0 {
+					sb.WriteString(", ")
+				}
+				sb.WriteString(r.Pick(elem))
+			}
+			sb.WriteString("]")
+		default:
+			sb.WriteString("{\"outer\":[")
+			for j := 0; j < k; j++ {
+				if j > 0 {
+					sb.WriteString(",")
+				}
+				sb.WriteString("{\"a\":[[],[]],\"b\":{}}")
+			}
+			sb.WriteString("]}")
+		}
+		src := sb.String()
+		res.Case(src, o.check([]byte(src), docOpts{origin: fmt.Sprintf("wide-%d", k)}))
+		res.Count("stream:wide")
+	}
+	if o.tmpDir != "" {
+		os.RemoveAll(o.tmpDir)
 	}
 
 	c13Windows(cx, o)
